@@ -22,6 +22,8 @@ def _harness_args(a, trace, only=None):
         return ["scenarios", "-out", trace] + (["-only", only] if only else [])
     if a.get("specreplay"):
         return ["specreplay", "-in", a["behs"], "-out", trace]
+    if a.get("guards"):
+        return ["guards", "-out", trace, "-seed", a["seed"], "-rand", a["rand"]] + (["-only", only] if only is not None else [])
     if a.get("liveness"):
         return ["liveness", "-out", trace, "-seed", a["seed"], "-runs", a["runs"], "-prefix", a["prefix"], "-nmax", a["nmax"], "-cuts", a.get("cuts", 0)] + (
             ["-only", only] if only is not None else [])
@@ -29,6 +31,8 @@ def _harness_args(a, trace, only=None):
            "-nmin", a["nmin"], "-nmax", a["nmax"]]
     if only is not None:
         out += ["-only", only]
+    if a.get("lone"):
+        out += ["-lone"]
     return out
 
 
@@ -146,6 +150,8 @@ def judge(rep, pid, tier, seed, only=None, args=None, what="random adversarial s
                 continue
             if not tag.startswith(prefix):
                 continue
+            if a.get("only_tags") and not any(tag.startswith(t) for t in a["only_tags"]):
+                continue
             sig = classify(tag, e, lines, l, bad)
             k = vlib.known_match(pid, sig)
             if k:
@@ -163,6 +169,10 @@ def judge(rep, pid, tier, seed, only=None, args=None, what="random adversarial s
                 path = rep.replay_of or vlib.save_replay(pid, "specreplay_seed%d_behaviour%d_line%d" % (a["seed"], run, lin),
                                                          {"property": pid, "kind": "spec-replay", "behaviour": behs[run] if behs else None, "line_in_run": lin,
                                                           "failed": sig, "event": describe(e)})
+            elif a.get("guards"):
+                path = rep.replay_of or vlib.save_replay(pid, "guards_seed%d_case%d" % (a["seed"], run),
+                                                         {"property": pid, "kind": "cluster-run", "args": a, "run": run, "line_in_run": lin,
+                                                          "failed": sig, "event": describe(e)})
             elif a.get("scenarios"):
                 path = rep.replay_of or vlib.save_replay(pid, "scenario_%s_line%d" % (label, lin),
                                                          {"property": pid, "kind": "cluster-run", "args": a, "run": label, "line_in_run": lin,
@@ -176,8 +186,30 @@ def judge(rep, pid, tier, seed, only=None, args=None, what="random adversarial s
     return lines, bad
 
 
+def proof_table(rep, pid, tier, seed, replay_in=None):
+    """P4 table of the real prepared-proof validator (every key in hand: a valid proof for every subset of PREPARE
+    senders, and the fully signed proof changed in exactly one respect), judged by Trace_Proof.tla with ValidProofBody."""
+    from props import tables
+    prefix = pid.lower() + "_"
+
+    def classify(line, tags):
+        return ({"tag": tags[0], "dev": line.get("dev")}, "%s: ValidatePreparedProof %s the proof built as '%s' for target view %s (harness parse: %s)" % (
+            tags[0], "accepted" if line["accepted"] else "rejected", line.get("dev"), line.get("tv"), json.dumps(line["proof"])[:300]))
+    tables.run_table(rep, pid, "proofs", ["-seed", seed, "-rand", 400 if tier == "quick" else 20000], "Trace_Proof", "Trace_Proof.cfg", classify,
+                     replay_in=replay_in, sample_keys=["dev", "accepted", "tv"], distinct_key=lambda e: [e["dev"], e["accepted"], e["w"], e["tv"]],
+                     tag_filter=lambda t: t.startswith(prefix))
+
+
 def replay(rep, payload, seed):
     pid = payload["property"]
+    if payload.get("kind") == "proofs-line":
+        from props import tables
+        wd = vlib.scratch_dir("proofr")
+        try:
+            proof_table(rep, pid, "quick", seed, replay_in=tables.replay_line(payload, wd))
+        finally:
+            shutil.rmtree(wd, ignore_errors=True)
+        return
     if payload.get("kind") == "spec-replay":
         from props import specreplay
         specreplay.judge(rep, pid, "quick", seed, inline=[payload["behaviour"]])
@@ -191,11 +223,24 @@ ASSUME = ["signatures are judged by the harness's HMAC keyring (ground truth), n
           "round changes: effects of draining the future cache are judged against the cache the reference filter would hold"]
 
 
+PER_NODE = ("C07", "C08", "C09", "C10", "C12", "C17")   # properties about what ONE correct node does, whatever the others are
+
+
 def simple_check(pid, tier, seed, extra=None):
     rep = vlib.Report(pid, tier, seed)
     rep.assumptions = list(ASSUME)
     judge(rep, pid, tier, 0, args={"scenarios": True, "seed": 0}, what="directed schedules (attack library)")
     judge(rep, pid, tier, seed)
+    if pid in PER_NODE:
+        # ONE correct node, every other key held by the adversary: per-node properties only (more than f Byzantine weight)
+        only_tags = [p.lower() + "_" for p in PER_NODE]
+        judge(rep, pid, tier, seed, args={"guards": True, "seed": seed, "rand": 150 if tier == "quick" else 3000, "only_tags": only_tags},
+              what="guard tables: a valid VIEW_CHANGE / NEW_VIEW changed in exactly one respect, delivered to a lone real node")
+        la = dict(gen_args(tier, seed), lone=True, only_tags=only_tags)
+        la["runs"] = la["runs"] // 3
+        judge(rep, pid, tier, seed, args=la, what="random adversarial schedules against a lone real node (all other keys held by the adversary)")
+    if pid in ("C07", "C08", "C09", "C11", "C12"):
+        proof_table(rep, pid, tier, seed)
     if pid in ("C01", "C04", "C07", "C08", "C10"):
         from props import specreplay
         specreplay.judge(rep, pid, tier, seed)
